@@ -101,7 +101,7 @@ def ref_setting(op):
     elif days is not None:
         attrs["expires"] = wo.http_date(EPOCH + days * DAY)
     max_age = kw.pop("max_age", None)
-    if max_age is not None:
+    if max_age is not None and str(max_age) != "":     # an empty string requests nothing (like domain="")
         attrs["max-age"] = str(max_age)
     if kw.pop("httponly", False):
         attrs["httponly"] = None
@@ -290,6 +290,7 @@ S_SLOTS = [
     ("set_cookie.domain", "str", lambda x: ("set", ("a", "v"), {"domain": x})),
     ("set_cookie.path", "str", lambda x: ("set", ("a", "v"), {"path": x})),
     ("set_cookie.samesite", "str", lambda x: ("set", ("a", "v"), {"samesite": x})),
+    ("set_cookie.max_age", "str", lambda x: ("set", ("a", "v"), {"max_age": x})),
     ("set_cookie.kwargs.Domain", "str", lambda x: ("set", ("a", "v"), {"Domain": x})),
     ("set_cookie.kwargs.Path", "str", lambda x: ("set", ("a", "v"), {"Path": x})),
     ("set_cookie.kwargs.SameSite", "str", lambda x: ("set", ("a", "v"), {"SameSite": x})),
@@ -310,7 +311,7 @@ def s_family(slot_id):
     fam = slot_id.replace("[bytes]", "")
     if ".kwargs." in fam:
         return "set_cookie.kwargs"
-    if fam.endswith((".domain", ".path", ".samesite")):
+    if fam.endswith((".domain", ".path", ".samesite", ".max_age")):
         return "cookie.attribute-argument"
     if fam.endswith(".name"):
         return "cookie.name"
